@@ -8,7 +8,7 @@ From Coq Require Import Ascii.
 From stdpp Require Import strings gmap sets fin_sets.
 From CG Require Import Proofs.ApiProofs.
 From CG Require Import Base.Api Base.Compose Base.Oracle Model.Compose6 Model.Unroll Model.Lint Proofs.LintProofs Proofs.ComposeProofs
-  Proofs.FillProofs Proofs.UnrollProofs Proofs.UnrollLink Proofs.FlopSemantics Proofs.RemoveNodes.
+  Proofs.FillProofs Proofs.UnrollProofs Proofs.UnrollSteps Proofs.UnrollLink Proofs.UnrollModelTotal Proofs.FlopSemantics Proofs.RemoveNodes.
 Open Scope string_scope.
 
 (* ---------- strings: dots ---------- *)
@@ -139,6 +139,20 @@ Proof.
     assert (In (b, bb') ((b0, bb) :: rest)) as Hin by (apply elem_of_list_In; rewrite <- El; by apply elem_of_map_to_list).
     specialize (Ef _ Hin). cbn beta iota zeta delta [fst snd] in Ef. by rewrite andb_true_iff, !bool_decide_eq_true in Ef.
   - cbv zeta. split; [|done]. destruct ru; [done|]. by rewrite remove_g_nil.
+Qed.
+
+(* no pin other than D / Q survives the two pin removals (whatever is ignored) *)
+Lemma no_pin_after_removal (h : circuit) (bb : bbdef) (insts U : list string) d q b p :
+  b ∈ insts → p ∈ bb_pinset bb → p ≠ d → p ≠ q →
+  pre b p ∉ dom (remove_g (remove_g (remove_g h (p ← elements (bb_in bb ∖ {[d]}); (λ b, pre b p) <$> insts))
+                                    (p ← elements (bb_out bb ∖ {[q]}); (λ b, pre b p) <$> insts)) U).
+Proof.
+  intros Hb Hp Hpd Hpq Hin. apply dom_remove_g in Hin as [Hin _]. apply dom_remove_g in Hin as [Hin HnB]. apply dom_remove_g in Hin as [_ HnA].
+  apply elem_of_union in Hp as [Hp|Hp].
+  - apply HnA. apply elem_of_list_to_set, elem_of_list_bind. exists p.
+    split; [apply elem_of_list_fmap; by exists b|apply elem_of_elements; set_solver].
+  - apply HnB. apply elem_of_list_to_set, elem_of_list_bind. exists p.
+    split; [apply elem_of_list_fmap; by exists b|apply elem_of_elements; set_solver].
 Qed.
 
 (* ---------- the concrete chain ---------- *)
@@ -354,6 +368,12 @@ Section chain.
     exists n. split; [apply elem_of_dom; eauto|done].
   Qed.
 
+  Lemma chain_dq b : b ∈ dom (c_bbs C) → ρ (Api.pin b d) = pre b d ∧ ρ (Api.pin b q) = pre b q.
+  Proof.
+    intros Hb. destruct (pin_kept b d Hb) as [_ ->]; [apply elem_of_union; by left|done|].
+    destruct (pin_kept b q Hb) as [_ ->]; [apply elem_of_union; by right|done|]. done.
+  Qed.
+
   (* --- the run of g3 is the flop circuit's run --- *)
   Context (Hac : acyclic g) (Hcl3 : closed g3) (Hac3 : acyclic g3).
   Context (Hkeys3 : ∀ b, b ∈ dom (c_bbs C) → pre b d ∈ dom g3).
@@ -361,8 +381,8 @@ Section chain.
   Proof.
     unfold flop_pairs. rewrite <- list_fmap_compose. apply list_fmap_ext. intros j b Hb. cbn.
     assert (b ∈ dom (c_bbs C)) as Hbd by (apply elem_of_elements; by eapply elem_of_list_lookup_2).
-    destruct (pin_kept b d Hbd) as [_ ->]; [unfold bb_pinset; set_solver|done|].
-    destruct (pin_kept b q Hbd) as [_ ->]; [unfold bb_pinset; set_solver|done|]. done.
+    destruct (pin_kept b d Hbd) as [_ ->]; [apply elem_of_union; by left|done|].
+    destruct (pin_kept b q Hbd) as [_ ->]; [apply elem_of_union; by right|done|]. done.
   Qed.
   Theorem chain_run st ins t n : n ∈ dom g → ρ n ∈ dom g3 →
     flop_run C d q t (st ∘ ρ) (λ t, ins t ∘ ρ) n = run g3 ((λ b, (pre b d, pre b q)) <$> insts) t st ins (ρ n).
@@ -373,7 +393,7 @@ Section chain.
       split; [destruct (ty_dom _ _ _ (pin_ty_in b d Hb Hd)) as (i & Hi & _)|destruct (ty_dom _ _ _ (pin_ty_out b q Hb Hq)) as (i & Hi & _)];
         apply elem_of_dom; eauto.
     - intros kv (b & -> & Hb%elem_of_elements)%elem_of_list_fmap. cbn.
-      destruct (pin_kept b d Hb) as [_ ->]; [unfold bb_pinset; set_solver|done|]. by apply Hkeys3.
+      destruct (pin_kept b d Hb) as [_ ->]; [apply elem_of_union; by left|done|]. by apply Hkeys3.
     - apply chain_cons.
     - apply chain_free.
   Qed.
@@ -394,4 +414,229 @@ Proof.
   eapply chain_run; try done.
   - intros u Hu. destruct ru; [|by apply elem_of_nil in Hu]. apply elem_of_elements, elem_of_filter in Hu as [[Hu _] _]. exact Hu.
   - intros b Hb. apply (Hk (pre b d, pre b q)). apply elem_of_list_fmap. exists b. split; [done|]. by apply elem_of_elements.
+Qed.
+
+(* ---------- S3a: what sequential_unroll returns simulates the FLOP CIRCUIT cycle by cycle; io map: D and Q of every flop, no other pin ---------- *)
+Lemma io_of_dom (c : circuit) o : o ∈ io_of c → o ∈ dom c.
+Proof. unfold io_of. intros [(i & Hi & _)%elem_of_inputs|(i & Hi & _)%elem_of_outputs]%elem_of_union; apply elem_of_dom; eauto. Qed.
+
+Theorem seq_flop_correct C n d q ign afo iv ru prefix CS sio :
+  seq_stripped C d q ign ru = Ok (CS, sio) →
+  lint_clean C → closed (c_g C) → acyclic (c_g C) → flop_names_ok C → flop_wiring_ok C q → d ∉ ign → q ∉ ign →
+  lint_clean CS → c_bbs CS = ∅ → closed (c_g CS) → acyclic (c_g CS) → plain (c_g CS) → valid_names (c_g CS) → free_are_inputs (c_g CS) →
+  1 ≤ n → sio_ok (c_g CS) sio → unroll_names_ok (c_g CS) n sio prefix → iv_ok C iv → iv_addable iv →
+  let ρ := pin_rho (kept_pins (c_g C) ign) in
+  ∃ U m, sequential_unroll C n d q ign afo iv ru prefix = Ok (U, m) ∧ dom m = io_of (c_g CS) ∧
+    (∀ b, b ∈ dom (c_bbs C) → ρ (Api.pin b d) = pre b d ∧ ρ (Api.pin b q) = pre b q ∧ pre b d ∈ dom m ∧ pre b q ∈ dom m) ∧
+    (∀ b bb p, c_bbs C !! b = Some bb → p ∈ bb_pinset bb → p ≠ d → p ≠ q → pre b p ∉ dom m) ∧
+    ∀ w, consistent (c_g U) w →
+      let st := λ v, w (io_name (ρ v) prefix 0) in
+      let ins := λ t i, w (io_name (ρ i) prefix t) in
+      ∀ x t, x ∈ dom (c_g C) → ρ x ∈ dom m → t < n →
+        m !! ρ x ≫= (.!! t) = Some (io_name (ρ x) prefix t) ∧ w (io_name (ρ x) prefix t) = flop_run C d q t st ins x.
+Proof.
+  intros Hs Hl Hcl Hac Hnm Hw Hdi Hqi Hl3 Hb3 Hcl3 Hac3 Hpl Hvn Hfr Hn Hsio Hun Hiv Hadd ρ.
+  destruct (seq_correct C n d q ign afo iv ru prefix CS sio Hs Hl3 Hb3 Hcl3 Hac3 Hpl Hvn Hfr Hn Hsio Hun Hiv Hadd) as (U & m & HU & Hdom & Hsim).
+  exists U, m. split; [done|]. split; [done|].
+  assert (Hk : ∀ kv, kv ∈ sio → kv.1 ∈ dom (c_g CS) ∧ kv.1 ∈ io_of (c_g CS) ∧ kv.2 ∈ io_of (c_g CS)).
+  { intros kv Hkv. destruct Hsio as (Hs1 & _). rewrite Forall_forall in Hs1. destruct (Hs1 kv Hkv) as [H1 H2].
+    assert (kv.1 ∈ io_of (c_g CS)) by (apply elem_of_union; by right). split; [by apply io_of_dom|]. split; [done|]. apply elem_of_union; by left. }
+  split; [|split].
+  - intros b Hb. destruct (seq_stripped_inv _ _ _ _ _ _ _ Hs) as (R & bb & HR & Hsame & Hd & Hq & HCS & Esio). cbv zeta in HCS.
+    assert ((pre b d, pre b q) ∈ sio) as Hin by (rewrite Esio; apply elem_of_list_fmap; exists b; split; [done|by apply elem_of_elements]).
+    destruct (Hk _ Hin) as (_ & H1 & H2). rewrite Hdom. simpl in H1, H2.
+    assert (ρ (Api.pin b d) = pre b d ∧ ρ (Api.pin b q) = pre b q) as [E1 E2]; [|done].
+    eapply (chain_dq C d q ign bb []); try done. intros u Hu. by apply elem_of_nil in Hu.
+  - intros b bb' p Hb Hp Hpd Hpq. rewrite Hdom. intros Hin%io_of_dom.
+    destruct (seq_stripped_inv _ _ _ _ _ _ _ Hs) as (R & bb & HR & Hsame & Hd & Hq & HCS & Esio). cbv zeta in HCS.
+    apply strip_blackboxes_inv in HR as (_ & _ & ->). cbn [c_g] in HCS. subst CS. cbn [c_g with_g] in Hin.
+    revert Hin. apply (no_pin_after_removal _ bb); try done; [apply elem_of_elements, elem_of_dom; eauto|].
+    destruct (Hsame b bb' Hb) as [E1 E2]. unfold bb_pinset in *. by rewrite <- E1, <- E2.
+  - intros w Hcw. cbv zeta. intros x t Hx Hm Ht. rewrite Hdom in Hm. destruct (Hsim w Hcw (ρ x) t Hm Ht) as [H1 H2]. split; [done|].
+    rewrite H2. symmetry.
+    apply (stripped_is_flop_run C d q ign ru CS sio (λ v, w (io_name v prefix 0)) (λ t i, w (io_name i prefix t)) t x); try done.
+    + intros kv Hkv. by apply Hk.
+    + by apply io_of_dom.
+Qed.
+
+(* ---------- S3b: output marks and initial values of what sequential_unroll returns ---------- *)
+Lemma so_fold_out (m : iomap) (key : string → string) afo (l : list string) : ∀ g g',
+  foldl (λ st b, match st with
+                 | (g, Done) => match m !! key b with Some l => set_output_g g l afo | None => (g, Fail KeyError) end
+                 | _ => st end) (g, Done) l = (g', Done) →
+  ∀ x, ((∀ b lst, b ∈ l → m !! key b = Some lst → x ∉ lst) → n_out <$> g' !! x = n_out <$> g !! x) ∧
+       (∀ b lst, b ∈ l → m !! key b = Some lst → x ∈ lst → n_out <$> g' !! x = Some afo).
+Proof.
+  induction l as [|b l IH] using rev_ind; intros g g' H x.
+  - simpl in H. injection H as <-. split; [done|]. intros b lst Hb. by apply elem_of_nil in Hb.
+  - rewrite foldl_app in H. simpl in H. destruct (foldl _ (g, Done) l) as [g1 o1] eqn:E1. destruct o1 as [|e]; [|done].
+    destruct (m !! key b) as [lst|] eqn:Em; [|done]. apply set_output_done in H as [H Hd]. destruct (IH g g1 E1 x) as [I1 I2]. split.
+    + intros Hno. rewrite H. rewrite decide_False by (apply (Hno b lst); [apply elem_of_app; right; by left|done]).
+      apply I1. intros b' lst' Hb'. apply Hno. apply elem_of_app. by left.
+    + intros b' lst' Hb' Em' Hx. rewrite H. destruct (decide (x ∈ lst)) as [Hin|Hnin].
+      * specialize (Hd x Hin). apply elem_of_dom in Hd as [j Hj]. by rewrite Hj.
+      * apply elem_of_app in Hb' as [Hb'|Hb']; [by eapply I2|]. apply elem_of_list_singleton in Hb' as ->. congruence.
+Qed.
+Lemma st_fold_out (ts : list (string * gtype)) : ∀ g g',
+  foldl (λ st xt, match st with (g, Done) => set_type_g g [xt.1] xt.2 | _ => st end) (g, Done) ts = (g', Done) →
+  ∀ x, n_out <$> g' !! x = n_out <$> g !! x.
+Proof.
+  induction ts as [|b l IH] using rev_ind; intros g g' H x.
+  - simpl in H. by injection H as <-.
+  - rewrite foldl_app in H. simpl in H. destruct (foldl _ (g, Done) l) as [g1 o1] eqn:E1. destruct o1 as [|e]; [|done].
+    apply set_type_done in H as [H _]. rewrite H, <- (IH g g1 E1 x). destruct (decide _); [|done]. by destruct (g1 !! x).
+Qed.
+Lemma st_fold_ty (ts : list (string * gtype)) : ∀ g g',
+  foldl (λ st xt, match st with (g, Done) => set_type_g g [xt.1] xt.2 | _ => st end) (g, Done) ts = (g', Done) →
+  NoDup ts.*1 → ∀ x t, (x, t) ∈ ts → n_ty <$> g' !! x = Some t.
+Proof.
+  induction ts as [|b l IH] using rev_ind; intros g g' H Hnd x t Hin; [by apply elem_of_nil in Hin|].
+  rewrite foldl_app in H. simpl in H. destruct (foldl _ (g, Done) l) as [g1 o1] eqn:E1. destruct o1 as [|e]; [|done].
+  apply set_type_done in H as [H Hd]. rewrite fmap_app in Hnd. apply NoDup_app in Hnd as (Hnd1 & Hnd2 & _).
+  rewrite H. apply elem_of_app in Hin as [Hin|Hin].
+  - rewrite decide_False; [by apply (IH g g1 E1 Hnd1)|]. intros ->%elem_of_list_singleton.
+    apply (Hnd2 b.1); [apply elem_of_list_fmap; by exists (b.1, t)|simpl; by left].
+  - apply elem_of_list_singleton in Hin as <-. simpl. rewrite decide_True by by left.
+    assert (x ∈ dom g1) as [j Hj]%elem_of_dom by (apply Hd; by left). by rewrite Hj.
+Qed.
+Lemma targets_exact {A} (m : iomap) (key : A → string) (val : A → gtype) (f : A → string) (L : list A) : ∀ ts,
+  (∀ a, a ∈ L → lookup0 m (key a) = Ok (f a)) →
+  foldr (λ a acc, rbind (lookup0 m (key a)) (λ x, rmap (cons (x, val a)) acc)) (Ok []) L = Ok ts →
+  ts = (λ a, (f a, val a)) <$> L.
+Proof.
+  induction L as [|a L IH]; intros ts Hl H; simpl in H; [by injection H as <-|].
+  rewrite (Hl a) in H by by left. simpl in H. destruct (foldr _ (Ok []) L) as [ts'| | |] eqn:E'; simpl in H; try done. injection H as <-.
+  rewrite fmap_cons. f_equal. apply IH; [|done]. intros a' Ha'. apply Hl. by right.
+Qed.
+
+Theorem seq_marks C n d q ign afo iv ru prefix U m CS sio :
+  seq_stripped C d q ign ru = Ok (CS, sio) →
+  inputs_undriven (c_g CS) → sio_ok (c_g CS) sio → unroll_names_ok (c_g CS) n sio prefix → iv_ok C iv → iv_nodup iv → 1 ≤ n →
+  sequential_unroll C n d q ign afo iv ru prefix = Ok (U, m) →
+  let G := unroll_closed (c_g CS) n sio prefix in
+  (∀ x, ((∀ b t, b ∈ dom (c_bbs C) → t < n → x ≠ io_name (pre b d) prefix t) → n_out <$> c_g U !! x = n_out <$> G !! x) ∧
+        (∀ b t, b ∈ dom (c_bbs C) → t < n → x = io_name (pre b d) prefix t → n_out <$> c_g U !! x = Some afo)) ∧
+  (∀ b, b ∈ dom (c_bbs C) → n_ty <$> c_g U !! io_name (pre b q) prefix 0 = Some (default Input (init_of iv b))).
+Proof.
+  intros Hstrip Hin0 (Hs1 & Hs2 & Hs3) Hnm Hiv Hivn Hn. pose proof (seq_stripped_sio _ _ _ _ _ _ _ Hstrip) as Hsio.
+  rewrite Forall_forall in Hs1.
+  assert (Hvals : ∀ kv, kv ∈ sio → kv.2 ∈ inputs (c_g CS)) by (intros kv Hkv; by apply Hs1).
+  unfold sequential_unroll. rewrite Hstrip. simpl.
+  destruct (unroll CS n sio prefix) as [[U0 m0]| | |] eqn:Eu; simpl; try done.
+  apply unroll_closed_form in Eu as [-> ->]; try done. simpl.
+  set (cs := c_g CS) in *. set (G := unroll_closed cs n sio prefix). set (M := unroll_iomap cs n prefix).
+  set (insts := elements (dom (c_bbs C))) in *.
+  destruct (foldl _ (G, Done) insts) as [g4 o4] eqn:E4. destruct o4 as [|e]; [|done].
+  destruct (match iv with IvNone => _ | IvAll t => _ | IvDict l => _ end) as [ts| | |] eqn:Et; simpl; try done.
+  destruct (foldl _ (g4, Done) ts) as [g5 o5] eqn:E5. destruct o5 as [|e]; [|done]. intros [= <- <-]. cbn [c_g with_g].
+  assert (Hio_dq : ∀ b, b ∈ insts → pre b d ∈ io_of cs ∧ pre b q ∈ io_of cs ∧ pre b q ∈ inputs cs).
+  { intros b Hb. assert ((pre b d, pre b q) ∈ sio) as Hin by (rewrite Hsio; apply elem_of_list_fmap; eauto).
+    destruct (Hs1 _ Hin) as [H1 H2]. simpl in *. split; [apply elem_of_union; by right|]. split; [apply elem_of_union; by left|done]. }
+  assert (HM : ∀ b, b ∈ insts → M !! pre b d = Some ((λ t, io_name (pre b d) prefix t) <$> seq 0 n)).
+  { intros b Hb. unfold M. rewrite unroll_iomap_full, decide_True; [done|]. by apply Hio_dq. }
+  split.
+  - intros x. pose proof (so_fold_out M (λ b, pre b d) afo insts G g4 E4 x) as [O1 O2].
+    rewrite (st_fold_out ts g4 g5 E5 x). split.
+    + intros Hno. apply O1. intros b lst Hb Hm. rewrite (HM b Hb) in Hm. injection Hm as <-.
+      intros (t & -> & Ht%elem_of_seq)%elem_of_list_fmap. apply (Hno b t); [by apply elem_of_elements|lia|done].
+    + intros b t Hb%elem_of_elements Ht ->. apply (O2 b _ Hb (HM b Hb)). apply elem_of_list_fmap. exists t. split; [done|]. apply elem_of_seq. lia.
+  - intros b Hb%elem_of_elements. set (x0 := λ b, io_name (pre b q) prefix 0).
+    change (n_ty <$> g5 !! x0 b = Some (default Input (init_of iv b))).
+    (* the step-0 Q node is an input of the plain unrolling *)
+    assert (HG : n_ty <$> g4 !! x0 b = Some Input).
+    { pose proof (so_fold_tf M (λ b, pre b d) afo insts G g4 E4 (x0 b)) as H4.
+      assert ((x0 b, io_node cs sio prefix 0 (pre b q)) ∈ unroll_nodes cs n sio prefix) as Hnode by (apply in_io_node; [lia|by apply Hio_dq]).
+      apply (elem_of_list_to_map (M := gmap string)) in Hnode; [|apply Hnm]. fold (unroll_closed cs n sio prefix) in Hnode. fold G in Hnode.
+      rewrite Hnode in H4. destruct (g4 !! x0 b) as [j4|]; [|done]. simpl in *. injection H4 as Hty _. rewrite Hty.
+      unfold io_node. rewrite bool_decide_eq_true_2 by by apply Hio_dq. by destruct (state_src sio (pre b q)). }
+    (* x0 is injective on the instances *)
+    assert (Hx0 : ∀ a a', a ∈ insts → a' ∈ insts → x0 a = x0 a' → a = a').
+    { intros a a' Ha Ha' E. apply (io_name_inj_on cs n sio prefix) in E; [|apply Hnm|lia|by apply Hio_dq..].
+      rewrite Hsio, <- list_fmap_compose in Hs3. by apply (NoDup_fmap_elem_inj _ _ _ _ Hs3 Ha Ha'). }
+    assert (Hl0 : ∀ a, a ∈ insts → lookup0 M (pre a q) = Ok (x0 a)).
+    { intros a Ha. unfold lookup0, M. rewrite unroll_iomap_full, decide_True by by apply Hio_dq. destruct n as [|n']; [lia|]. done. }
+    pose proof (st_fold_tf ts g4 g5 E5 (x0 b)) as [_ Hkeep].
+    destruct iv as [|t|l]; simpl in Et |- *.
+    + injection Et as <-. rewrite Hkeep by set_solver. done.
+    + apply (targets_exact M (λ b, pre b q) (λ _, t) x0 insts ts Hl0) in Et.
+      apply (st_fold_ty ts g4 g5 E5).
+      * rewrite Et, <- list_fmap_compose. apply NoDup_fmap_2_strong; [done|apply NoDup_elements].
+      * rewrite Et. apply elem_of_list_fmap. by exists b.
+    + assert (Hkt : ∀ kt, kt ∈ l → kt.1 ∈ insts) by (intros kt Hkt; apply elem_of_elements; by apply Hiv).
+      apply (targets_exact M (λ kt : string * gtype, pre kt.1 q) (λ kt, kt.2) (λ kt, x0 kt.1) l ts) in Et; [|intros kt Hk; by apply Hl0, Hkt].
+      destruct (list_find (λ kt, kt.1 = b) l) as [[j kt]|] eqn:Ef; simpl.
+      * apply list_find_Some in Ef as (Hj & <- & _). apply elem_of_list_lookup_2 in Hj.
+        apply (st_fold_ty ts g4 g5 E5).
+        -- rewrite Et, <- list_fmap_compose. simpl in Hivn.
+           apply (NoDup_fmap_2_strong (λ kt : string * gtype, x0 kt.1)); [|by eapply NoDup_fmap_1].
+           intros k1 k2 H1 H2 E. cbn in E. apply Hx0 in E; [|by apply Hkt..].
+           apply (NoDup_fmap_elem_inj fst l k1 k2 Hivn H1 H2 E).
+        -- rewrite Et. apply elem_of_list_fmap. by exists kt.
+      * rewrite Hkeep; [done|]. rewrite Et, <- list_fmap_compose. intros (kt & E & Hkt')%elem_of_list_fmap. cbn in E.
+        apply Hx0 in E; [|done|by apply Hkt]. eapply list_find_None in Ef. rewrite Forall_forall in Ef. by apply (Ef kt).
+Qed.
+
+(* outputs of the plain unrolling: the per-step copies of the outputs *)
+Lemma unroll_closed_outputs c n sio prefix x : NoDup (unroll_nodes c n sio prefix).*1 →
+  x ∈ outputs (unroll_closed c n sio prefix) ↔ ∃ t o, t < n ∧ o ∈ outputs c ∧ x = io_name o prefix t.
+Proof.
+  intros Hnd. rewrite elem_of_outputs. split.
+  - intros (j & Hj & Ho). unfold unroll_closed in Hj. apply elem_of_list_to_map in Hj; [|done].
+    apply in_unroll_nodes_inv in Hj as (t & Ht & [(io & Hio & -> & ->)|(m & info & Hm & -> & ->)]).
+    + exists t, io. split; [done|]. split; [|done]. apply elem_of_outputs.
+      assert (n_out (io_node c sio prefix t io) = is_output c io) as E.
+      { unfold io_node. case_bool_decide; [|done]. destruct (state_src sio io); [destruct t|]; done. }
+      rewrite E in Ho. unfold is_output in Ho. destruct (c !! io) as [i|]; simpl in Ho; [eauto|done].
+    + unfold ucopy_info in Ho. by case_bool_decide.
+  - intros (t & o & Ht & (i & Hi & Hout)%elem_of_outputs & ->). exists (io_node c sio prefix t o). split.
+    + unfold unroll_closed. apply elem_of_list_to_map; [done|]. apply in_io_node; [done|]. apply elem_of_union. right. apply elem_of_outputs. eauto.
+    + assert (is_output c o = true) as E by (unfold is_output; by rewrite Hi).
+      unfold io_node. case_bool_decide; [|done]. destruct (state_src sio o); [destruct t|]; done.
+Qed.
+
+(* ---------- C09, sequential clause, assembled ---------- *)
+Theorem seq_flop_full C n d q ign afo iv ru prefix CS sio :
+  seq_stripped C d q ign ru = Ok (CS, sio) →
+  lint_clean C → closed (c_g C) → acyclic (c_g C) → flop_names_ok C → flop_wiring_ok C q → d ∉ ign → q ∉ ign →
+  lint_clean CS → c_bbs CS = ∅ → closed (c_g CS) → acyclic (c_g CS) → plain (c_g CS) → valid_names (c_g CS) → free_are_inputs (c_g CS) →
+  1 ≤ n → sio_ok (c_g CS) sio → unroll_names_ok (c_g CS) n sio prefix → iv_ok C iv → iv_addable iv → iv_nodup iv →
+  let ρ := pin_rho (kept_pins (c_g C) ign) in
+  ∃ U m, sequential_unroll C n d q ign afo iv ru prefix = Ok (U, m) ∧ dom m = io_of (c_g CS) ∧
+    (* io map: D and Q pin of every flop (under their flattened names), no other pin, ignored or not *)
+    (∀ b, b ∈ dom (c_bbs C) → ρ (Api.pin b d) = pre b d ∧ ρ (Api.pin b q) = pre b q ∧ pre b d ∈ dom m ∧ pre b q ∈ dom m) ∧
+    (∀ b bb p, c_bbs C !! b = Some bb → p ∈ bb_pinset bb → p ≠ d → p ≠ q → pre b p ∉ dom m) ∧
+    (* cycle-accurate simulation of the flop circuit: state = Q pins, next state = D pins *)
+    (∀ w, consistent (c_g U) w →
+      let st := λ v, w (io_name (ρ v) prefix 0) in
+      let ins := λ t i, w (io_name (ρ i) prefix t) in
+      ∀ x t, x ∈ dom (c_g C) → ρ x ∈ dom m → t < n →
+        m !! ρ x ≫= (.!! t) = Some (io_name (ρ x) prefix t) ∧ w (io_name (ρ x) prefix t) = flop_run C d q t st ins x) ∧
+    (* initial values: the step-0 Q node is an input (free initial state) or the given constant *)
+    (∀ b, b ∈ dom (c_bbs C) → ty (c_g U) (io_name (pre b q) prefix 0) = Some (default Input (init_of iv b))) ∧
+    (∀ w, consistent (c_g U) w → ∀ b, b ∈ dom (c_bbs C) →
+       (init_of iv b = Some C0 → w (io_name (pre b q) prefix 0) = false) ∧ (init_of iv b = Some C1 → w (io_name (pre b q) prefix 0) = true)) ∧
+    (* outputs: the flop data outputs exactly when requested, and the per-step copies of the other outputs *)
+    (∀ b t, b ∈ dom (c_bbs C) → t < n → io_name (pre b d) prefix t ∈ outputs (c_g U) ↔ afo = true) ∧
+    (∀ x, (∀ b t, b ∈ dom (c_bbs C) → t < n → x ≠ io_name (pre b d) prefix t) →
+       x ∈ outputs (c_g U) ↔ ∃ t o, t < n ∧ o ∈ outputs (c_g CS) ∧ x = io_name o prefix t).
+Proof.
+  intros Hs Hl Hcl Hac Hnm Hw Hdi Hqi Hl3 Hb3 Hcl3 Hac3 Hpl Hvn Hfr Hn Hsio Hun Hiv Hadd Hivn ρ.
+  destruct (seq_flop_correct C n d q ign afo iv ru prefix CS sio Hs Hl Hcl Hac Hnm Hw Hdi Hqi Hl3 Hb3 Hcl3 Hac3 Hpl Hvn Hfr Hn Hsio Hun Hiv Hadd)
+    as (U & m & HU & Hdom & Hdq & Hnop & Hsim).
+  destruct (seq_marks C n d q ign afo iv ru prefix U m CS sio Hs (lint_clean_inputs_undriven9 CS Hl3) Hsio Hun Hiv Hivn Hn HU) as [Hout Hty].
+  exists U, m. do 5 (split; [done|]).
+  assert (Hty' : ∀ b, b ∈ dom (c_bbs C) → ty (c_g U) (io_name (pre b q) prefix 0) = Some (default Input (init_of iv b))) by (intros b Hb; by apply Hty).
+  split; [done|]. split; [|split].
+  - intros w Hcw b Hb. specialize (Hty' b Hb). apply ty_dom in Hty' as (j & Hj & Ht). specialize (Hcw _ _ Hj). unfold node_ok, is_free in Hcw.
+    split; intros E; rewrite E in Ht; simpl in Ht; rewrite Ht in Hcw; exact Hcw.
+  - intros b t Hb Ht. destruct (Hout (io_name (pre b d) prefix t)) as [_ O2]. specialize (O2 b t Hb Ht eq_refl).
+    rewrite elem_of_outputs. split.
+    + intros (j & Hj & Ho). rewrite Hj in O2. simpl in O2. congruence.
+    + intros ->. destruct (c_g U !! io_name (pre b d) prefix t) as [j|]; simpl in O2; [|done]. exists j. split; [done|congruence].
+  - intros x Hno. destruct (Hout x) as [O1 _]. specialize (O1 Hno). rewrite <- (unroll_closed_outputs _ _ sio) by apply Hun.
+    rewrite !elem_of_outputs. split.
+    + intros (j & Hj & Ho). rewrite Hj in O1. simpl in O1. destruct (unroll_closed (c_g CS) n sio prefix !! x) as [j'|]; simpl in O1; [|done].
+      exists j'. split; [done|congruence].
+    + intros (j & Hj & Ho). rewrite Hj in O1. simpl in O1. destruct (c_g U !! x) as [j'|]; simpl in O1; [|done].
+      exists j'. split; [done|congruence].
 Qed.
